@@ -672,12 +672,13 @@ class Polygon(Shape2D):
         q_dot_norm = np.dot(q, self.normal)
         q = q - q_dot_norm[:, np.newaxis] * self.normal
         q_sqs = np.sum(q * q, axis=-1)
-        # "Zero" relative to the size of the polygon (|q| L < 1e-4); to that order the
+        # "Zero" relative to the size of the polygon (|q| L < 3e-5); to that order the
         # amplitude is the area times the phase of the centroid (relative error below
-        # 1e-8). Just above a smaller threshold the edge sum below loses that much and
-        # more to cancellation (its rounding error grows like 1e-16 / (|q| L)^2).
+        # 1e-9, which the face sum of a polyhedron amplifies by 1 / (|q| L)). Just above
+        # a much smaller threshold the edge sum below loses more than that to
+        # cancellation (its rounding error grows like 1e-16 / (|q| L)^2).
         extent = np.max(np.ptp(self._vertices, axis=0))
-        zero_q = q_sqs * extent**2 < 1e-8
+        zero_q = q_sqs * extent**2 < 1e-9
         form_factor[zero_q] = self.area * np.exp(
             -1j * np.dot(q[zero_q], self.centroid)
         )
